@@ -3,6 +3,7 @@ import DaskModel.Model.BagShuffle
 import DaskModel.Lemmas.BagReduce
 import DaskModel.Lemmas.BagOps
 import DaskModel.Lemmas.BagShuffle
+import DaskModel.Lemmas.BagShufflePerm
 import DaskModel.Lemmas.SubMultiset
 /-! # C48 — bag operations equal their Python reference (theorems) -/
 namespace Dask.C48
@@ -399,7 +400,91 @@ theorem shuffle_colocated (k stages : Nat) (hk : 0 < k) (parts : List (List (Nat
     (hh : e.1 = e'.1) : t = t' := by
   rw [← (staged_route k stages hk parts t e he).2, ← (staged_route k stages hk parts t' e' he').2, hh]
 
+/-- **`shuffle_multiset`**: the staged shuffle preserves the multiset of elements (with multiplicities):
+    nothing is lost, nothing duplicated — every stage is a permutation -/
+theorem shuffle_multiset (k stages : Nat) (hk : 0 < k) (parts : List (List (Nat × α)))
+    (hlen : parts.length ≤ k ^ stages) : (shuffle k stages parts).flatten.Perm parts.flatten := by
+  simp only [shuffle]
+  have := stagesFrom_perm k stages hk stages 0 (by omega) (start (k ^ stages) parts) (by simp [start])
+  rw [start_flatten _ parts hlen] at this
+  exact this
+
 example : shuffle 2 2 [[(5, 'a'), (2, 'b')], [(3, 'c')], [(6, 'd'), (1, 'e')]] =
     [[], [(5, 'a'), (1, 'e')], [(2, 'b'), (6, 'd')], [(3, 'c')]] := by decide
+
+/-! ### the groups -/
+
+theorem mem_groupByKeyOrdered (g : α → Nat) (xs : List α) (κ : Nat) (grp : List α) :
+    (κ, grp) ∈ groupByKeyOrdered g xs ↔ (∃ x ∈ xs, g x = κ) ∧ grp = xs.filter (fun x => g x == κ) := by
+  simp only [groupByKeyOrdered, List.mem_map, List.mem_eraseDups, Prod.mk.injEq]
+  constructor
+  · rintro ⟨k, ⟨x, hx, rfl⟩, rfl, rfl⟩
+    exact ⟨⟨x, hx, rfl⟩, rfl⟩
+  · rintro ⟨⟨x, hx, rfl⟩, rfl⟩
+    exact ⟨g x, ⟨x, hx, rfl⟩, rfl, rfl⟩
+
+/-- elements of the hashed input carry the hash of their key -/
+theorem shuffle_hash_inv (hash : Nat → Nat) (g : α → Nat) (k stages : Nat) (parts : List (List α)) (t : Nat)
+    (e : Nat × α) (he : e ∈ (shuffle k stages (parts.map fun p => p.map fun x => (hash (g x), x))).getD t []) :
+    e.1 = hash (g e.2) ∧ e.2 ∈ parts.flatten := by
+  obtain ⟨p, hp⟩ := shuffle_sound k stages _ t e he
+  simp only [List.getD_eq_getElem?_getD, List.getElem?_map] at hp
+  cases hpp : parts[p]? with
+  | none => simp [hpp] at hp
+  | some q =>
+    simp only [hpp, Option.map_some, Option.getD_some, List.mem_map] at hp
+    obtain ⟨x, hx, rfl⟩ := hp
+    exact ⟨rfl, List.mem_flatten.mpr ⟨q, List.mem_of_getElem? hpp, hx⟩⟩
+
+/-- **`groupby_eq_python`** (task shuffle): for `npartitions ≤ k^stages`
+    * every group `(κ, grp)` of output partition `t` satisfies `t = hash κ % k^stages`, so a key appears in
+      exactly one partition, and `grp` holds only elements of the bag with key `κ`;
+    * every element `x` of the bag is in the group of its key, in partition `hash (g x) % k^stages`.
+    (Order inside a group is not promised by bags and not claimed.) -/
+theorem groupby_eq_python (hash : Nat → Nat) (g : α → Nat) (k stages : Nat) (hk : 0 < k) (parts : List (List α))
+    (hlen : parts.length ≤ k ^ stages) :
+    (∀ t part κ grp, (groupbyTasks hash g k stages parts)[t]? = some part → (κ, grp) ∈ part →
+        t = hash κ % k ^ stages ∧ ∀ x ∈ grp, x ∈ parts.flatten ∧ g x = κ) ∧
+    (∀ x ∈ parts.flatten, ∃ part grp,
+        (groupbyTasks hash g k stages parts)[hash (g x) % k ^ stages]? = some part ∧ (g x, grp) ∈ part ∧ x ∈ grp) := by
+  constructor
+  · intro t part κ grp hpart hmem
+    simp only [groupbyTasks, List.getElem?_map] at hpart
+    cases hst : (shuffle k stages (parts.map fun p => p.map fun x => (hash (g x), x)))[t]? with
+    | none => simp [hst] at hpart
+    | some st =>
+      simp only [hst, Option.map_some, Option.some.injEq] at hpart
+      subst hpart
+      have hget : (shuffle k stages (parts.map fun p => p.map fun x => (hash (g x), x))).getD t [] = st := by
+        simp [List.getD_eq_getElem?_getD, hst]
+      obtain ⟨⟨x, hx, hgx⟩, hgrp⟩ := (mem_groupByKeyOrdered g _ κ grp).mp hmem
+      obtain ⟨e, he, rfl⟩ := List.mem_map.mp hx
+      have hinv := shuffle_hash_inv hash g k stages parts t e (by rw [hget]; exact he)
+      have hroute := staged_route k stages hk _ t e (by rw [hget]; exact he)
+      refine ⟨by rw [← hroute.2, hinv.1, hgx], ?_⟩
+      intro y hy
+      rw [hgrp] at hy
+      obtain ⟨hy1, hy2⟩ := List.mem_filter.mp hy
+      obtain ⟨e', he', rfl⟩ := List.mem_map.mp hy1
+      exact ⟨(shuffle_hash_inv hash g k stages parts t e' (by rw [hget]; exact he')).2, by simpa using hy2⟩
+  · intro x hx
+    obtain ⟨q, hq, hxq⟩ := List.mem_flatten.mp hx
+    obtain ⟨p, hp, hpq⟩ := List.getElem_of_mem hq
+    have hin : (hash (g x), x) ∈ (parts.map fun p => p.map fun x => (hash (g x), x)).getD p [] := by
+      simp only [List.getD_eq_getElem?_getD, List.getElem?_map, List.getElem?_eq_getElem hp, Option.map_some,
+        Option.getD_some, List.mem_map]
+      exact ⟨x, by rw [hpq]; exact hxq, rfl⟩
+    have hc := shuffle_complete k stages hk _ (by simpa using hlen) p (by simpa using hp) _ hin
+    simp only at hc
+    have hlt : hash (g x) % k ^ stages < (shuffle k stages (parts.map fun p => p.map fun x => (hash (g x), x))).length := by
+      rw [shuffle_length]; exact Nat.mod_lt _ (Nat.pow_pos hk)
+    rw [List.getD_eq_getElem?_getD, List.getElem?_eq_getElem hlt] at hc
+    simp only [Option.getD_some] at hc
+    generalize hst : (shuffle k stages (parts.map fun p => p.map fun x => (hash (g x), x)))[hash (g x) % k ^ stages] = st at hc
+    refine ⟨groupByKeyOrdered g (st.map (·.2)), (st.map (·.2)).filter (fun y => g y == g x), ?_, ?_, ?_⟩
+    · simp only [groupbyTasks, List.getElem?_map, List.getElem?_eq_getElem hlt, Option.map_some, hst]
+    · rw [mem_groupByKeyOrdered]
+      exact ⟨⟨x, List.mem_map.mpr ⟨_, hc, rfl⟩, rfl⟩, rfl⟩
+    · exact List.mem_filter.mpr ⟨List.mem_map.mpr ⟨_, hc, rfl⟩, by simp⟩
 
 end Dask.C48
